@@ -84,7 +84,7 @@ int main(int argc, char **argv)
 {
 	vmaps_register_all();
 	printf("{\"layout\":{\"conn_state\":[%zu,%zu,%zu,%zu,%zu,%zu,%zu,%zu,%zu,%zu,%zu,%zu],"
-	       "\"handoff\":[%zu,%zu,%zu,%zu,%zu,%zu,%zu,%zu,%zu,%zu],\"tuples_key\":[%zu,%zu,%zu,%zu,%zu,%zu]}}\n",
+	       "\"handoff\":[%zu,%zu,%zu,%zu,%zu,%zu,%zu,%zu,%zu,%zu],\"tuples_key\":[%zu,%zu,%zu,%zu,%zu,%zu],\"tcp_state\":{\"active\":%d,\"closing\":%d}}}\n",
 	       sizeof(struct conn_state), offsetof(struct conn_state, is_wan_ingress_direction), offsetof(struct conn_state, state),
 	       offsetof(struct conn_state, last_seen_ns), offsetof(struct conn_state, meta.data.mark),
 	       offsetof(struct conn_state, meta.data.outbound), offsetof(struct conn_state, meta.data.must),
@@ -95,7 +95,8 @@ int main(int argc, char **argv)
 	       offsetof(struct routing_result, must), offsetof(struct routing_result, mac), offsetof(struct routing_result, outbound),
 	       offsetof(struct routing_result, pname), offsetof(struct routing_result, pid), offsetof(struct routing_result, dscp),
 	       sizeof(struct tuples_key), offsetof(struct tuples_key, sip), offsetof(struct tuples_key, dip),
-	       offsetof(struct tuples_key, sport), offsetof(struct tuples_key, dport), offsetof(struct tuples_key, l4proto));
+	       offsetof(struct tuples_key, sport), offsetof(struct tuples_key, dport), offsetof(struct tuples_key, l4proto),
+	       (int)TCP_STATE_ACTIVE, (int)TCP_STATE_CLOSING);
 	long caseid = 0;
 	int stepno = 0;
 	while (fgets(line, sizeof(line), stdin)) {
